@@ -264,7 +264,7 @@ Section IdemThm.
     set (target := if o_dircontents o && is_dir (sdent sn) && negb (x_exists (X1 D)) then L else parent L) in *.
     (* second run *)
     set (fs1 := c_fs st1) in *.
-    assert (Hfs1 : wf_fs fs1) by (eapply (copy_preserves_wf_proof o sroot Hsrc Hlc (or_intror Hw)); eauto).
+    assert (Hfs1 : wf_fs fs1) by (eapply (copy_preserves_wf_proof o sroot Hsrc Hlc); eauto).
     destruct (top o sroot Hsrc Hlc (or_intror Hw) fs1 src dst Hfs1) as (sdof2 & T2). rewrite Eo2 in T2.
     destruct T2 as (st2 & Ec2 & I2 & S2 & _). exists st2. split; auto.
     destruct (inv_init o fs1 Hfs1) as (I0' & Hroot0' & _).
